@@ -11,7 +11,10 @@
         (_suggest, _on_result, _report_as_failed, on_trial_result, on_trial_error,
          trials_checkpoints_can_be_removed) — the searcher is an oracle (does it
          return a config?), the Tuner's trial counter is threaded as [s_ntrials].
-   Metric values are exact rationals or the distinguished NaN (= failed).
+   Metric values are exact rationals or the distinguished NaN (= failed).  A trial may also REPORT +-inf:
+   that is a valid, extreme value (np.isnan is False for it); Q carries it through the order-preserving
+   embedding +-inf -> +-2^1100 (beyond every finite binary64 value) used by the harness, so every
+   comparison among reported values is the one Python makes and all theorems cover such values.
    Every assertion / exception of the code is an explicit [Error] outcome.
    No proofs of properties in this file. *)
 From Verif Require Import model.Base.
